@@ -663,7 +663,7 @@ def weave_fn(w, item_id, text, spec, log):
         if p.get('unique', True) and 'nth' not in p and len(idxs) != 1:
             raise Undecided('%s: proof anchor %r is ambiguous (%d matches)' % (item_id, anchor, len(idxs)))
         at = idxs[nth - 1] + (len(anchor) if 'after' in p else 0)
-        c = Clause(p.get('label', 'proof'), '', props, 'proof')
+        c = Clause(p.get('label', 'proof'), p['text'] if p.get('label') else '', props, 'proof')
         if p.get('ghost'):
             block = ' ' + w.mark(item_id, c) + ' ' + p['text'].strip() + ' '
         else:
